@@ -8,9 +8,21 @@ register("T00",  # infrastructure self-test, not a property of properties.jsonl
 register("C20", lean_modules=["GtModel.Props.C20"], gen=lambda: __import__("harness.gentables", fromlist=["x"]).gen_cli_tables(),
          streams=["faults"],
          theorems=["GtModel.C20.handlers_cover", "GtModel.C20.invalid_yields_message", "GtModel.C20.error_path_first", "GtModel.C20.error_path_second"],
-         partial="the set of exception classes each external parser raises on invalid syntax is an assumption validated by fault enumeration; message formatting is not modelled",
-         assumptions=["RAISABLE table in harness/gentables.py (validated by the faults stream on every run)"],
-         trusted=["except-clause table and exception MROs regenerated from /repo by harness/gentables.py"])
+         partial="Only handlers_cover carries content: a decide over regenerated tables (except clauses of /repo, exception MROs, and the hand list of "
+                 "raisable classes UNITED with the classes a seeded per-run fuzz of the parser entry points really raised). The other three registered "
+                 "theorems (invalid_yields_message, error_path_first, error_path_second) restate a literal table: loadOfInvalid is DEFINED from handlersCover "
+                 "and outcome .message is the literal <1,true,true,false> transcribed from main()'s error branch, so the errorpath correspondence compares a "
+                 "per-type constant with the monitor's verdict. Everything else is decided on the real command line by the faults stream: seeded "
+                 "corruptions (truncation, delimiters, nesting, byte flips, and value-level ones: encoding names, <date>/<integer>/<real>/<data> text, "
+                 "entities, YAML timestamps/tags/aliases/merge keys, 5000-digit numbers, binary-plist header/object/offset/trailer bytes) of rich seed documents; "
+                 "quick tier samples them (about 900 files, 14 truncation points per document; every byte only in thorough). 'Invalid' = rejected by a reference parser "
+                 "with ANY exception; the reference is a second entry point where the standard library has one (pyexpat driven directly vs ElementTree, PyYAML's "
+                 "pure-Python SafeLoader vs the C loader) but the same library for plist (plistlib) and JSON5 (json5), so a parser that wrongly accepts a file "
+                 "filters it out. Message formatting is not modelled. --html is not exercised (it prints its page skeleton before the error).",
+         assumptions=["the parsers raise no exception class outside the generated raisable table = hand list in harness/gentables.py + classes recorded by this run's "
+                      "fuzz (bounded: 2.5k-12k corrupted files per type in quick, seeded by VERIF_SEED); a class outside it escaping a loader shows up in the faults stream as uncaught:<type>:<class>"],
+         trusted=["except-clause table (try scope and re-raise aware ast walk) and exception MROs regenerated from /repo by harness/gentables.py",
+                  "harness.streams.faults.record_raised (what the parser entry points raise), run on every Gen step"])
 
 from .. import gentables as _gt
 
